@@ -65,6 +65,20 @@ pub fn table_cases(r: &mut R, tier: Tier, unique_only: bool) -> Vec<Case> {
             }
         }
     }
+    // sparse tables (columns empty in every row) at narrow widths: the window between "fits without the empty
+    // columns' separators" and "fits with them"
+    let ns = scale(tier, 400, 6000);
+    for _ in 0..ns {
+        let t = gen_sparse_table(r);
+        for w in 1..=14usize {
+            if tier == Tier::Quick && r.p(50) {
+                continue;
+            }
+            let mut c = case(t.html(), base_cfg(), w, "sparse");
+            c.aux = t.encode();
+            v.push(c);
+        }
+    }
     // random regular tables
     let n = scale(tier, 2000, 30000);
     for _ in 0..n {
